@@ -748,6 +748,25 @@ func (e *Engine) builtinHostScenario(ch *kernel.Chooser, st *kernel.Stats) kerne
 			Detail: fmt.Sprintf("Register%sOperator was refused (dynamic token: %v, built-in token %s which has no %s role: %v)", strings.Title(h.role), refusedD, h.sym, h.role, refusedB)})
 		return res
 	}
+	// the role is now taken on both hosts: the same registration again must be refused on both
+	var again regOp
+	switch h.role {
+	case "prefix":
+		again = regOp{Kind: "prefix", Name: word + "2"}
+	case "infix":
+		again = regOp{Kind: "infix", Name: word + "2", Level: 2 + ch.Choose(12)}
+	default:
+		again = regOp{Kind: "postfix", Name: word + "2"}
+	}
+	again.Type = int(id)
+	_, r1 := d.applyReal(again)
+	again.Type = int(h.t)
+	_, r2 := b.applyReal(again)
+	if !r1 || !r2 {
+		res.Violations = append(res.Violations, kernel.Violation{Property: "C05", Kind: "refusal", Signature: "refusal|" + h.role + "|builtin-host-duplicate",
+			Detail: fmt.Sprintf("a second Register%sOperator for a token that already has that role was accepted (dynamic token: refused=%v; built-in token %s: refused=%v)", strings.Title(h.role), r1, h.sym, r2)})
+		return res
+	}
 	for try := 0; try < 6; try++ {
 		pr, ok := genProbe(ch, d.model, st)
 		if !ok {
